@@ -228,6 +228,10 @@ def run(ctx):
                 rs.unrec("%s %s: %s" % (nm, case, detail))
         ctx.floor(rs, 8)
 
+    if ctx.want("R13"):
+        from . import c14_envstack
+        c14_envstack.run(ctx)
+
     if ctx.want("R12"):
         rs = ctx.rule("R12", "sort requests in unusual argument forms (one-shot iterator, tuple, keywords) leave the type manager's tables as the usual form does")
         from . import mgr_deep
